@@ -14,7 +14,7 @@
     branch is a counterexample of the model (and [..._is_violation] shows it contradicts the first). *)
 From Coq Require Import ZArith List Bool.
 Require Import SPP.Base.Rt SPP.Gen.Kernels SPP.Gen.C04Io SPP.Model.Bits SPP.Model.Stream SPP.Model.C04_Writer
-               SPP.Proofs.C04_writer.
+               SPP.Model.C04_Multi SPP.Proofs.C04_writer SPP.Proofs.C04_multi.
 Import ListNotations.
 Open Scope Z_scope.
 
@@ -117,6 +117,94 @@ Theorem C04_to_file_roundtrip : forall cfg nchans nsamps h vals, 1 <= nchans -> 
 Proof. exact to_file_roundtrip. Qed.
 Print Assumptions C04_to_file_roundtrip.
 
+(** ** 2b. SEVERAL cwrite calls on one prepared output file (gulp by gulp: the normal use) *)
+
+(** for EVERY configuration, depth, in-memory dtype and k >= 1 calls: if every call hands over a whole number of bytes
+    (and, at 1/2/4 bits, values the depth can hold: the packing kernels are specified for those), the bytes on disk after
+    cwrite(a1); ...; cwrite(ak) -- the concatenation of what the calls wrote, [None] if a call raised -- are the bytes
+    of ONE cwrite of the concatenated array *)
+Theorem C04_calls_are_one_call : forall cfg nbits dt l, In nbits depths -> l <> [] -> Forall (fun a => nd_dt a = dt) l ->
+  calls_ok nbits (map nd_vals l) -> cwrite_all cfg nbits l = cwrite cfg nbits (nd_concat dt l).
+Proof. exact cwrite_all_is_one_call. Qed.
+Print Assumptions C04_calls_are_one_call.
+
+(** two calls, spelled out *)
+Theorem C04_cwrite_append : forall cfg nbits dt x y, In nbits depths -> len x mod bitfact nbits = 0 ->
+  (bit_unpack nbits = true -> Forall (fun v => 0 <= v < 2 ^ nbits) x /\ Forall (fun v => 0 <= v < 2 ^ nbits) y) ->
+  cwrite cfg nbits (mknd dt (x ++ y)) = oapp (cwrite cfg nbits (mknd dt x)) (cwrite cfg nbits (mknd dt y)).
+Proof. exact cwrite_app. Qed.
+Print Assumptions C04_cwrite_append.
+
+(** and the product read back: k >= 1 calls of whole samples each (any split of the nsamps samples), all arrays of one
+    dtype, values representable at the depth: either a call is refused -- and then the dtype is not the file's -- or the
+    file is header + nsamps*nchans*nbits bits, the inferred count is nsamps and read_block(0, nsamples) returns the
+    concatenation of the arrays, in the order written *)
+Theorem C04_roundtrip_many_calls : sound_cfg gen_cfg = true -> forall nbits nchans nsamps h dt l,
+  In nbits depths -> 1 <= nchans -> 1 <= nsamps -> (nchans * nbits) mod 8 = 0 ->
+  l <> [] -> Forall (fun a => nd_dt a = dt) l -> Forall (fun a => nd_size a mod nchans = 0) l ->
+  len (concat (map nd_vals l)) = nsamps * nchans -> Forall (fun a => Forall (repr_at nbits) (nd_vals a)) l ->
+  match write_fil_many gen_cfg nbits h l with
+  | None => file_dtype nbits <> Some dt
+  | Some f => hdr f = h /\ 8 * datalen f = nsamps * nchans * nbits /\
+              read_fil nbits nchans f = Some (nsamps, concat (map nd_vals l))
+  end.
+Proof. exact (roundtrip_many gen_cfg). Qed.
+Print Assumptions C04_roundtrip_many_calls.
+
+Theorem C04_roundtrip_many_calls_all : forall cfg, sound_cfg cfg = true -> RoundtripMany cfg.
+Proof. exact roundtrip_many. Qed.
+Print Assumptions C04_roundtrip_many_calls_all.
+
+(** what the packed depths do when a call does NOT hand over a whole number of bytes (outside the property's quantifier:
+    nchans*nbits is a whole number of bytes and calls hand over whole samples): pack allocates size // bitfact bytes, so
+    the last size % bitfact samples of that call are dropped, not carried over -- the calls are then NOT one call *)
+Theorem C04_packed_call_length : forall cfg nbits a b, In nbits [1; 2; 4] -> In nbits depths -> cwrite cfg nbits a = Some b ->
+  len b = nd_size a / bf nbits.
+Proof. exact cwrite_packed_len. Qed.
+Print Assumptions C04_packed_call_length.
+
+Theorem C04_unaligned_calls_refuted : forall cfg,
+  cwrite_all cfg 4 [mknd U8 [1]; mknd U8 [2]] = Some [] /\ cwrite cfg 4 (mknd U8 [1; 2]) = Some [18].
+Proof. exact unaligned_calls_differ. Qed.
+Print Assumptions C04_unaligned_calls_refuted.
+
+(** ** 2c. the memory layout of the array handed to cwrite: strided and read-only one-dimensional arrays *)
+
+(** for the cwrite the source has today: if it copies an array that is not writable and C-contiguous in front of `pack`
+    (regenerated: gen_cw_copies_noncontig), then for EVERY configuration, depth and view -- any buffer, offset, step,
+    length, WRITEABLE flag -- cwrite writes exactly the bytes it writes for the contiguous array of the same values
+    (so that every theorem above applies to the view's values); otherwise a uint8 array with representable values is
+    refused at a packed depth because of its layout alone *)
+Theorem C04_layout_verdict : if gen_cw_copies_noncontig then LayoutOk gen_cw_copies_noncontig else LayoutRefuted gen_cw_copies_noncontig.
+Proof. exact (layout_verdict gen_cw_copies_noncontig). Qed.
+Print Assumptions C04_layout_verdict.
+
+Theorem C04_layout_verdict_all : forall copies : bool, if copies then LayoutOk copies else LayoutRefuted copies.
+Proof. exact layout_verdict. Qed.
+Print Assumptions C04_layout_verdict_all.
+
+Theorem C04_layout_refuted_is_violation : forall copies : bool, LayoutRefuted copies -> ~ LayoutOk copies.
+Proof. exact layout_refuted_not_ok. Qed.
+Print Assumptions C04_layout_refuted_is_violation.
+
+(** spelled out *)
+Theorem C04_layout_same_bytes : gen_cw_copies_noncontig = true -> forall cfg nbits v,
+  cwrite_view gen_cw_copies_noncontig cfg nbits v = cwrite cfg nbits (mknd (vw_dt v) (view_vals v)).
+Proof. intros E cfg nbits v. rewrite E. exact (layout_sound cfg nbits v). Qed.
+Print Assumptions C04_layout_same_bytes.
+
+(** partial (whatever the source says, the tree before the copy was added included): at 8/16/32 bits every view is
+    written like the array of its values *)
+Theorem C04_layout_wide_partial : forall copies cfg nbits v, bit_unpack nbits = false ->
+  cwrite_view copies cfg nbits v = cwrite cfg nbits (view_nd v).
+Proof. exact layout_wide. Qed.
+Print Assumptions C04_layout_wide_partial.
+
+(** the tree before the copy was added *)
+Theorem C04_pinned_layout_refuted : LayoutRefuted false.
+Proof. exact layout_unsound. Qed.
+Print Assumptions C04_pinned_layout_refuted.
+
 (** the pinned tree's cwrite (array handed to tofile as it is), independently of what the source says today *)
 Theorem C04_pinned_cwrite_refuted : WidthRefuted pinned_cfg /\ FilRefuted pinned_cfg.
 Proof. exact pinned_cwrite_refuted. Qed.
@@ -185,3 +273,48 @@ Example C04_example_series :
   read_series (mkfmt true true F32 true None false) (Some 4) 32 [9; 9; 9; 9; 0; 0; 128; 63; 0; 0; 0; 192] = Some [1; -2] /\
   (exists l, read_series (mkfmt true true F32 false (Some F32) false) (Some 4) 32 [9; 9; 9; 9; 0; 0; 128; 63; 0; 0; 0; 192] = Some l /\ length l = 3%nat).
 Proof. vm_compute. repeat split; try reflexivity. eexists; split; reflexivity. Qed.
+
+(** several calls: hypotheses of C04_roundtrip_many_calls are satisfiable -- a 2-bit file of 4 channels written in three
+    calls of 1, 2 and 1 samples; the product is the one of a single call and reads back to the 16 values *)
+Example C04_example_many :
+  let l := [mknd U8 [1; 2; 3; 0]; mknd U8 [3; 3; 0; 1; 2; 2; 1; 0]; mknd U8 [0; 1; 2; 3]] in
+  In 2 depths /\ (4 * 2) mod 8 = 0 /\ l <> [] /\ Forall (fun a => nd_dt a = U8) l /\ Forall (fun a => nd_size a mod 4 = 0) l /\
+  len (concat (map nd_vals l)) = 4 * 4 /\ calls_ok 2 (map nd_vals l) /\
+  write_fil_many (mkcfg AsIs Convert true) 2 [7; 7] l = Some (mkfile [7; 7] [108; 241; 164; 27]) /\
+  write_fil (mkcfg AsIs Convert true) 2 [7; 7] (nd_concat U8 l) = Some (mkfile [7; 7] [108; 241; 164; 27]) /\
+  read_fil 2 4 (mkfile [7; 7] [108; 241; 164; 27]) = Some (4, [1; 2; 3; 0; 3; 3; 0; 1; 2; 2; 1; 0; 0; 1; 2; 3]).
+Proof. cbv zeta. split; [vm_compute; auto 10|]. split; [reflexivity|]. split; [discriminate|].
+  split; [repeat constructor|]. split; [repeat constructor|]. split; [reflexivity|]. split.
+  - split; [repeat constructor|]. intros _. repeat (constructor; [repeat (constructor; [vm_compute; split; [discriminate | reflexivity]|]); constructor|]). constructor.
+  - split; [|split]; vm_compute; reflexivity. Qed.
+
+(** int64 samples into a 16-bit file in two calls (converted), and refused call by call *)
+Example C04_example_many_modes :
+  cwrite_all (mkcfg AsIs Convert true) 16 [mknd I64 [513]; mknd I64 [2; 3]] = Some [1; 2; 2; 0; 3; 0] /\
+  cwrite (mkcfg AsIs Convert true) 16 (mknd I64 [513; 2; 3]) = Some [1; 2; 2; 0; 3; 0] /\
+  cwrite_all (mkcfg AsIs Refuse true) 16 [mknd I64 [513]; mknd I64 [2; 3]] = None.
+Proof. vm_compute. repeat split; reflexivity. Qed.
+
+(** the hypothesis of C04_meta_carried is satisfiable by a header codec of the SIGPROC kind (length-prefixed, headers of
+    every length), and the theorem then says what it should on a concrete product: a 2-byte header [84; 83] in front of
+    three 16-bit samples *)
+Example C04_example_meta :
+  (forall h rest, lp_parse (lp_encode h ++ rest) = Some (h, len (lp_encode h))) /\
+  exists f, write_fil (mkcfg AsIs Convert true) 16 (lp_encode [84; 83]) (mknd I64 [513; 2; 3]) = Some f /\
+            raw f = [2; 84; 83; 1; 2; 2; 0; 3; 0] /\
+            lp_parse (raw f) = Some ([84; 83], hdrlen f) /\
+            cwrite (mkcfg AsIs Convert true) 16 (mknd I64 [513; 2; 3]) = Some (dat f).
+Proof. split; [exact lp_codec|]. eexists. split; [vm_compute; reflexivity|]. split; [reflexivity|].
+  exact (C04_meta_carried (list Z) lp_encode lp_parse lp_codec (mkcfg AsIs Convert true) 16 [84; 83] (mknd I64 [513; 2; 3]) _ eq_refl). Qed.
+
+(** layouts: every other item of a buffer (strided) and a read-only array, at 4 bits and at 16 bits *)
+Example C04_example_layout :
+  let strided := mkview U8 [1; 9; 2; 9; 15; 9; 0; 9] 0 2 4 true in
+  let readonly := mkview U8 [1; 2; 15; 0] 0 1 4 false in
+  view_vals strided = [1; 2; 15; 0] /\ view_contig strided = false /\
+  cwrite_view true (mkcfg AsIs Convert true) 4 strided = Some [18; 240] /\
+  cwrite_view true (mkcfg AsIs Convert true) 4 readonly = Some [18; 240] /\
+  cwrite_view false (mkcfg AsIs Convert true) 4 strided = None /\
+  cwrite_view false (mkcfg AsIs Convert true) 4 readonly = None /\
+  cwrite_view false (mkcfg AsIs Convert true) 16 strided = Some [1; 0; 2; 0; 15; 0; 0; 0].
+Proof. vm_compute. repeat split; reflexivity. Qed.
